@@ -152,7 +152,7 @@ def main(tier):
     budget = 60 if tier == 'quick' else 900
     from symx.common import run_instances
     kres = run_instances(run_instance, [('prune_order', n, W, t) for n in ((3,) if tier == 'quick' else (3, 4)) for W in range(1, n) for t in (False, True)])
-    res = list(kres) + gabs.run_all(rep, run_instance, instances(tier), budget, 16 * (100 if tier == 'quick' else 1500))
+    res = list(kres) + gabs.run_all(rep, run_instance, instances(tier), budget, 16 * (100 if tier == 'quick' else 900))
     rep.bounds = dict(graphs="oneway3, oneway4, line2, fork, tri, star" if tier == 'quick' else "all digraphs <=3 nodes, fork, oneway4, star",
                       T="2..3", orders="arbitrary permutation of: values_all() iteration (stands for every PYTHONHASHSEED), edge/node listing of the spatial query, neighbour listing per node",
                       config="max_dist symbolic (early stop reachable) or width 1 (tie extension reachable); non-emitting on/off")
